@@ -166,6 +166,48 @@ theorem C15_lin_scalar_div (l : Lin) (c : R) (hl : l.WF) (hc : c.WF) (fc : c.den
     (Lin.divR l c).known.toRat = l.known.toRat / c.toRat ∧
     (∀ σ, Lin.eval (Lin.divR l c) σ = Lin.eval l σ / c.toRat) ∧ Lin.divAssignR l c = Lin.divR l c := by exact Lin.scalar_div_spec l c hl hc fc nz
 
+/-- `rational / inf_rational` and `I / inf_rational` are the first-order quotient
+    `a / (r + i·ε) = a/r − (a·i/r²)·ε`: multiplied back by the divisor the ε⁰ coefficient is `a` and the ε¹ coefficient is
+    `0` (ε² is dropped, as everywhere in this representation).  Finite operands, `r ≠ 0` (for `r = 0` the library's
+    rational division yields an infinity and the infinitesimal part is `0·∞`, which the C++ asserts against). -/
+theorem C15_inf_scalar_quotient (a : R) (b : IR) (ha : a.WF) (fa : a.den ≠ 0) (hb : b.WF) (fr : b.rat.den ≠ 0)
+    (fi : b.inf.den ≠ 0) (nz : b.rat.num ≠ 0) :
+    (IR.rDiv a b).WF ∧ (IR.rDiv a b).rat.den ≠ 0 ∧ (IR.rDiv a b).inf.den ≠ 0 ∧
+    (IR.rDiv a b).rat.toRat = a.toRat / b.rat.toRat ∧
+    (IR.rDiv a b).inf.toRat = - (a.toRat * b.inf.toRat) / (b.rat.toRat * b.rat.toRat) ∧
+    (IR.rDiv a b).rat.toRat * b.rat.toRat = a.toRat ∧
+    (IR.rDiv a b).rat.toRat * b.inf.toRat + (IR.rDiv a b).inf.toRat * b.rat.toRat = 0 ∧
+    (∀ i : Int, IR.iDiv i b = IR.rDiv (ofInt i) b) := by
+  have hA : FinWF a := ⟨ha, fa⟩
+  have hR : FinWF b.rat := ⟨hb.1, fr⟩
+  have hI : FinWF b.inf := ⟨hb.2, fi⟩
+  have rne : b.rat.toRat ≠ 0 := by
+    intro h0
+    have := hR.toRat_num_den.1
+    rw [h0] at this
+    exact nz (by simpa using this.symm)
+  obtain ⟨q1, q2⟩ := div_fin hA hR nz
+  obtain ⟨m1, m2⟩ := mul_fin hA hI
+  obtain ⟨s1, s2⟩ := mul_fin hR hR
+  have snz : (mul b.rat b.rat).num ≠ 0 := by
+    intro h0
+    have := s1.toRat_num_den.1
+    rw [h0, s2] at this
+    have : b.rat.toRat * b.rat.toRat = 0 := by
+      apply Rat.zero_of_num_zero; exact this
+    rcases mul_eq_zero.mp this with h | h <;> exact rne h
+  obtain ⟨d1, d2⟩ := div_fin m1 s1 snz
+  have n1 : FinWF (neg (div (mul a b.inf) (mul b.rat b.rat))) := finWF_neg d1
+  have n2 := toRat_neg d1
+  have e1 : (IR.rDiv a b).rat = div a b.rat := rfl
+  have e2 : (IR.rDiv a b).inf = neg (div (mul a b.inf) (mul b.rat b.rat)) := rfl
+  refine ⟨⟨by rw [e1]; exact q1.1, by rw [e2]; exact n1.1⟩, by rw [e1]; exact q1.2, by rw [e2]; exact n1.2, ?_, ?_, ?_, ?_, ?_⟩
+  · rw [e1, q2]
+  · rw [e2, n2, d2, m2, s2]; ring
+  · rw [e1, q2]; field_simp
+  · rw [e1, e2, q2, n2, d2, m2, s2]; field_simp; ring
+  · intro i; rfl
+
 /-! ## non-vacuity: the hypotheses are met by concrete non-trivial values -/
 
 example : (mk2 6 (-4)).WF ∧ (mk2 6 (-4)) = ⟨-3, 2⟩ := by decide
@@ -174,5 +216,7 @@ example : pinf.WF ∧ ninf.WF ∧ R.le pinf ninf = false ∧ R.ge ninf pinf = fa
 example : (⟨[(1, ⟨1, 2⟩), (3, ⟨-2, 1⟩)], ⟨3, 1⟩⟩ : Lin).WF := by
   refine ⟨⟨by decide, trivial⟩, ?_, by decide, by decide⟩
   intro t ht; simp at ht; rcases ht with rfl | rfl <;> decide
+
+example : IR.rDiv ⟨1, 1⟩ ⟨⟨2, 1⟩, ⟨3, 1⟩⟩ = ⟨⟨1, 2⟩, ⟨-3, 4⟩⟩ ∧ IR.iDiv 1 ⟨⟨1, 1⟩, ⟨0, 1⟩⟩ = ⟨⟨1, 1⟩, ⟨0, 1⟩⟩ := by decide
 
 end Oratio
